@@ -163,6 +163,29 @@ struct WorkerOut {
 }
 
 const HANG_S: u64 = 60;
+
+// Watchdog plumbing: every execution of code under test calls `heartbeat()`;
+// a worker whose last heartbeat is HANG_S seconds old is stuck inside the
+// code under test (one execution takes micro- to milliseconds).
+static HEARTBEATS: [AtomicU64; 128] = {
+    const Z: AtomicU64 = AtomicU64::new(0);
+    [Z; 128]
+};
+static CLOCK: std::sync::OnceLock<Instant> = std::sync::OnceLock::new();
+thread_local! {
+    static WORKER_SLOT: std::cell::Cell<usize> = std::cell::Cell::new(0);
+}
+
+fn now_ms() -> u64 {
+    CLOCK.get_or_init(Instant::now).elapsed().as_millis() as u64 + 1
+}
+
+/// Called by properties before each execution of code under test. Never
+/// influences a scenario: it only feeds the hang watchdog.
+pub fn heartbeat() {
+    let slot = WORKER_SLOT.with(|s| s.get());
+    HEARTBEATS[slot].store(now_ms(), Ordering::Relaxed);
+}
 const MAX_VIOLATIONS: usize = 40;
 
 pub fn run_batch(
@@ -193,10 +216,10 @@ pub fn run_batch(
         scope.spawn(|| {
             while !done.load(Ordering::Relaxed) {
                 std::thread::sleep(Duration::from_millis(200));
-                let now = start.elapsed().as_millis() as u64;
-                for (idx, t0) in running.iter() {
+                let now = now_ms();
+                for (slot, (idx, _)) in running.iter().enumerate() {
                     let i = idx.load(Ordering::Relaxed);
-                    let t = t0.load(Ordering::Relaxed);
+                    let t = HEARTBEATS[slot].load(Ordering::Relaxed);
                     if i != 0 && now.saturating_sub(t) > HANG_S * 1000 {
                         report_hang(prop, tier, seed, i - 1);
                     }
@@ -234,9 +257,8 @@ pub fn run_batch(
                             if i >= scenarios {
                                 break;
                             }
-                            running[w]
-                                .1
-                                .store(start.elapsed().as_millis() as u64, Ordering::Relaxed);
+                            WORKER_SLOT.with(|s| s.set(w));
+                            heartbeat();
                             running[w].0.store(i + 1, Ordering::Relaxed);
                             let mut tape = Tape::record(scenario_seed(seed, prop.id(), i));
                             let ctx = Ctx {
@@ -336,8 +358,8 @@ fn report_hang(prop: &dyn Property, tier: Tier, seed: u64, index: u64) -> ! {
         (
             "detail",
             J::s(format!(
-                "scenario did not finish within {} s of wall-clock (bounded progress); \
-                 the tape is regenerated from seed and index",
+                "one execution of the code under test did not return within {} s of wall-clock \
+                 (bounded progress); the tape is regenerated from seed and index",
                 HANG_S
             )),
         ),
@@ -457,7 +479,7 @@ pub fn check(prop: &dyn Property, tier: Tier) -> i32 {
                 .map(|n| n.get())
                 .unwrap_or(4)
         })
-        .max(1);
+        .clamp(1, 128);
     let res = run_batch(prop, tier, seed, scenarios, cap, workers, false);
 
     let known = load_known_findings();
@@ -606,11 +628,15 @@ pub fn replay(prop: &dyn Property, path: &str, machine: bool) -> i32 {
     // the watchdog also guards replays (a recorded hang hangs again)
     let prop_id = prop.id().to_string();
     let path_owned = path.to_string();
-    std::thread::spawn(move || {
-        std::thread::sleep(Duration::from_secs(HANG_S));
-        println!("REPRODUCED exact=true rule={}.HANG", prop_id);
-        println!("VIOLATION property={} replay={}", prop_id, path_owned);
-        std::process::exit(1);
+    WORKER_SLOT.with(|s| s.set(0));
+    heartbeat();
+    std::thread::spawn(move || loop {
+        std::thread::sleep(Duration::from_millis(500));
+        if now_ms().saturating_sub(HEARTBEATS[0].load(Ordering::Relaxed)) > HANG_S * 1000 {
+            println!("REPRODUCED exact=true rule={}.HANG", prop_id);
+            println!("VIOLATION property={} replay={}", prop_id, path_owned);
+            std::process::exit(1);
+        }
     });
 
     let mut tape = match j.get("tape") {
